@@ -159,6 +159,24 @@ def _case_body(seed: int) -> Dict[str, Any]:
                         graphs.append(g)
                 if not graphs:
                     return {"n_checks": 0, "fails": [], "nontrivial": False}
+                if len(graphs) >= 2 and abs(seed) % 2 == 0:
+                    # several graphs of one session saved under names that differ only after a dot (cp_graph.step0, cp_graph.step1), all saved BEFORE any is restored:
+                    # each archive restores to the graph it was written from
+                    wants = [_snapshot(g) for g in graphs]
+                    zips = []
+                    for gi, g in enumerate(graphs):
+                        od = os.path.join(work, "graphs", f"cp_graph.step{gi}")
+                        zips.append(rt.lib(fails, "save", {**inp, "out_dir": od}, g.save, od))
+                        extracted.append(os.path.join("/tmp", od.lstrip("/")))
+                    for gi, z in enumerate(zips):
+                        back = rt.lib(fails, "restore_cpgraph", {**inp, "archive": z}, restore_cpgraph, z, ta.t, 0)
+                        got = rt.lib(fails, "breakdown(restored graph)", {**inp, "graph": gi}, _snapshot, back)
+                        n += 1
+                        diff = [k for k in wants[gi] if got[k] != wants[gi][k]]
+                        if diff:
+                            fails.append({"what": "each_archive_restores_its_own_graph", "input": {**inp, "graph": gi, "archives": zips}, "observed": {k: str(got[k])[:300] for k in diff[:3]},
+                                          "expected": {k: str(wants[gi][k])[:300] for k in diff[:3]}})
+                            break
                 # history: the same directory name is used for every save (second graph overwrites the first)
                 out_dir = os.path.join(work, "cp")
                 for gi, g in enumerate(graphs):
